@@ -639,7 +639,7 @@ class Engine:
             s_none.assume(recv.x[0])
             if feasible(s_none):
                 self.do_raise(s_none, "TypeError", ln)
-            st.assume(znot(recv.x[0]))
+                st.assume(znot(recv.x[0]))   # (nothing to add when the path already excludes None)
             return self.index(recv.x[1], idx, st, node)
         if k in ("opaque", "data") and self.reg.lookup_method(self.reg.family_of(recv) or "", "__getitem__") is not None:
             return self.reg.call_method(self, st, recv, "__getitem__", [idx], {}, node)
